@@ -16,7 +16,7 @@ use std::collections::BTreeSet;
 
 const STEP_BUDGET: u64 = 5_000_000;
 
-pub const RENAMINGS: usize = 8;
+pub const RENAMINGS: usize = 9;
 
 /// renamings of the base labels a, b, c, d: (written, label)
 fn renaming(r: usize) -> Vec<(String, String)> {
@@ -27,6 +27,8 @@ fn renaming(r: usize) -> Vec<(String, String)> {
         6 => vec![q("a b"), q("a_20_b"), q("_"), q("a_5f_b")],
         // prefixes and case variants of each other
         7 => vec![p("ab"), p("a"), p("Ab"), p("aB")],
+        // labels that read like formulas over the other labels (as written and as the library renders them)
+        8 => vec![p("x"), q("not(x)"), q("and(x,not(x))"), q("neg(x)")],
         0 => vec![p("a"), p("b"), p("c"), p("d")],
         1 => vec![p("a10"), p("a9"), p("B"), p("b0")],
         2 => vec![p("10"), p("9"), q("x y"), p("Z")],
@@ -427,14 +429,14 @@ pub fn order_sensitive_case(m: usize) -> Vec<(String, String)> {
 
 pub fn run_c10(run: &Run) {
     writers_selfcheck();
-    run.set_rule("base ADFs: A(2), F(3,1), F(3,2) (thorough: + a residue class of A(3)) and the large family L (12-48 statements). Presentations: all permutations of the fact list for <= 6 facts (A(2): all 24 x 3 sortings x 8 renamings x 2 layouts; F(3,1): all 720 with sorting/renaming/layout as a fixed function of the permutation index), a fixed list of 14 permutations otherwise (identity, reverse, rotations, all ac first, interleaved, strided); sorting none / varsort_lexi / varsort_alphanum; two layouts; eight injective renamings chosen to reorder under both sortings (a10/a9/B, digits, quoted, permuted names, keywords, reserved characters, labels that are escape images of each other, prefixes and case variants of each other); back-ends native, biodivine, hybrid. Grounded interpretation and the multisets of complete, stable and two-valued models are read as maps label -> T/F/u, mapped back through the renaming and compared with the definition (small ADFs) or with the first presentation (large ADFs; grounded also with the definition). After varsort_lexi the labels are byte-wise sorted and dict_value(label) is the position. Non-trivial: presentations other than the identity.");
+    run.set_rule("base ADFs: A(2), F(3,1), F(3,2) (thorough: + a residue class of A(3)) and the large family L (12-48 statements). Presentations: all permutations of the fact list for <= 6 facts (A(2): all 24 x 3 sortings x 9 renamings x 2 layouts; F(3,1): all 720 with sorting/renaming/layout as a fixed function of the permutation index), a fixed list of 14 permutations otherwise (identity, reverse, rotations, all ac first, interleaved, strided); sorting none / varsort_lexi / varsort_alphanum; two layouts; nine injective renamings chosen to reorder under both sortings (a10/a9/B, digits, quoted, permuted names, keywords, reserved characters, labels that are escape images of each other, prefixes and case variants of each other, labels that read like formulas over the other labels); back-ends native, biodivine, hybrid. Grounded interpretation and the multisets of complete, stable and two-valued models are read as maps label -> T/F/u, mapped back through the renaming and compared with the definition (small ADFs) or with the first presentation (large ADFs; grounded also with the definition). After varsort_lexi the labels are byte-wise sorted and dict_value(label) is the position. Non-trivial: presentations other than the identity.");
     run.assume("large instances: complete models only if the grounded interpretation leaves <= 5 statements undecided, stable/two-valued only if <= 9");
     let quick = run.quick();
     // A(2): everything
     let a2 = Source::FamCompact(fam_a(2));
     let per = 24 * 3 * RENAMINGS as u64 * 2;
     let res = run.par_family(
-        "A(2) x 24 fact orders x 3 sortings x 8 renamings x 2 layouts",
+        "A(2) x 24 fact orders x 3 sortings x 9 renamings x 2 layouts",
         a2.size() * per,
         || (0u64, 0u64),
         |st, k| {
